@@ -121,7 +121,7 @@ def parse_sched(g):
 
 def model_line(c):
     if c['kind'] == 'IND':
-        return 'IND %s %s %s %s' % (c['name'], vlib.il(c['ns']), vlib.fl(c['fs']), vlib.streams(c['streams']))
+        return 'INDM %s %s %s %s' % (c['name'], vlib.il(c['ns']), vlib.fl(c['fs']), vlib.streams(c['streams']))
     if c['kind'] == 'STRAT' and ':' not in c['name'] and c['name'] != 'MacdRsi':
         return 'STRAT %s %s %s %s' % (c['name'], vlib.il(c['ns']), vlib.fl(c['fs']), vlib.streams(c['streams']))
     return None
